@@ -24,7 +24,7 @@ def configs(tier):
 def run(tier):
     return run_graphs(
         'C11', tier, FACTORY, configs(tier), keep={'mode'},
-        single_outcome_ok=('reopen_default', 'reopen_rw', 'badopen'),
+        single_outcome_ok=('reopen_default', 'reopen_rw', 'badopen', 'mode_in_ctx'),
         rule=('state = files + live handle; every mutating entry point (a[0]=v, a[:]=v, a[...]=v, append of a row / of zero '
               'rows, iterappend of a row / empty / zero rows, truncate 0 / -1, delete, metadata update/setitem/pop/popitem/del) '
               'is a transition from every reachable state; in mode r it must raise and leave a recursive byte snapshot '
